@@ -81,6 +81,7 @@ func run(c *vf.Ctx) {
 		w.andxSlots()
 		w.fullDataBlock()
 		w.assignAfterDecode()
+		w.libraryOffsetConvention(c)
 		atomic.AddInt64(&rejected, w.rejected)
 		mu.Lock()
 		if w.sample != nil && len(samples) < 200 {
@@ -99,6 +100,115 @@ func run(c *vf.Ctx) {
 	c.Set("assignments_rejected_as_inconsistent", rejected)
 	c.Set("deviation_bound_completed", map[string]int{"zero_base": c.Pick(3, 4), "full_base": c.Pick(2, 3)})
 	tally.Publish()
+}
+
+// libraryOffsetConvention: the structures of the transaction family (and the raw/mpx reads and writes) carry
+// offset fields. MS-CIFS counts them from the start of the SMB header; the library's decoders read them as the
+// LENGTH OF THE PADDING in front of the buffer (a known finding, PADOFF: with MS-CIFS offsets nothing of these
+// structures decodes, so the ordinary lattice sees only failures there and cannot notice a further one). Under
+// the library's own convention (offset = length of the pad in front of the buffer) the structures do round-trip
+// today, and that is what callers of this library rely on: the same lattice is run once more with the offsets
+// set that way, under keys of their own (libconv/...), so the decoders of these structures are not a blind spot.
+func (w *worker) libraryOffsetConvention(c *vf.Ctx) {
+	cmd := w.cmd
+	type pair struct{ off, pad *refsmb.Field }
+	var pairs []pair
+	for _, f := range cmd.Fields {
+		if f.Rel == nil || f.Rel.Kind != refsmb.ROffset {
+			continue
+		}
+		for _, p := range cmd.Fields {
+			if p.Rel != nil && p.Rel.Kind == refsmb.RPad && p.Rel.Of == f.Rel.Of {
+				pairs = append(pairs, pair{f, p})
+			}
+		}
+	}
+	if len(pairs) == 0 {
+		return
+	}
+	// (the structures with ONE pad - raw / multiplexed reads and writes - take exactly one pad byte whatever the
+	// offset says, known finding PAD1; what fails for that reason under this convention is listed in findings/C04.json too)
+	conv := func(x command_interface.CommandInterface) {
+		for _, p := range pairs {
+			smbgen.Field(x, p.off).SetUint(uint64(smbgen.Field(x, p.pad).Len()))
+		}
+	}
+	isPad := map[int]bool{}
+	for _, p := range pairs {
+		isPad[p.pad.Pos] = true
+	}
+	eval := func(a *refsmb.Assign, r *explore.Run) {
+		// explicit pads are applied after the relations: under this convention a pad in front of an EMPTY buffer is
+		// locatable too (the offset is its length), which the MS-CIFS reading of the relations refuses to build
+		noPads := a
+		for pos := range isPad {
+			if a.Dev[pos] > 0 {
+				noPads = noPads.With(pos, 0)
+			}
+		}
+		build := func() (command_interface.CommandInterface, error) {
+			x, err := noPads.Build()
+			if err != nil {
+				return nil, err
+			}
+			for pos := range isPad {
+				if k := a.Dev[pos]; k > 0 {
+					a.Lat[pos][k-1].Set(smbgen.Field(x, cmd.Fields[pos]))
+				}
+			}
+			conv(x)
+			return x, nil
+		}
+		x, err := build()
+		if err != nil {
+			return
+		}
+		want, _ := build()
+		label := a.Label() + " [offsets = pad lengths]"
+		w.c.Case([]byte(cmd.Name), []byte(label))
+		b, merr, pan, _ := smbgen.Marshal(x)
+		if r != nil {
+			r.Observe(smbgen.Hash64(b)...)
+		}
+		if !w.check(w.key("libconv/marshal"), merr == nil && !pan, func() string {
+			return fmt.Sprintf("%s{%s}.Marshal() fails: %v", cmd.Name, label, merr)
+		}) {
+			return
+		}
+		d := cmd.New()
+		uerr, up, uwhere := smbgen.Unmarshal(d, b)
+		if !w.check(w.key("libconv/unmarshal"), uerr == nil && !up, func() string {
+			return fmt.Sprintf("%s.Unmarshal(%s) = %v (panic=%v %s); input = own Marshal of {%s}", cmd.Name, vf.HexS(b), uerr, up, uwhere, label)
+		}) {
+			return
+		}
+		mismatch := false
+		for _, f := range cmd.Fields {
+			wv, gv := smbgen.Field(want, f), smbgen.Field(d, f)
+			if !w.check(w.key("libconv/field:"+f.Name+"/roundtrip"), cmd.FieldEqual(f, wv, gv), func() string {
+				return fmt.Sprintf("%s{%s}: field %s = %s, after Marshal -> %s -> Unmarshal into a fresh structure it is %s", cmd.Name, label, f.Name, cmd.FieldString(f, wv), vf.HexS(b), cmd.FieldString(f, gv))
+			}) {
+				mismatch = true
+			}
+		}
+		if !mismatch {
+			fresh := cmd.New()
+			copyFields(cmd, fresh, d)
+			b3, e3, p3, _ := smbgen.Marshal(fresh)
+			w.check(w.key("libconv/reencode-fresh-object"), e3 == nil && !p3 && bytes.Equal(b3, b), func() string {
+				return fmt.Sprintf("%s{%s}: Marshal = %s; decoded fields copied into a fresh structure and marshalled = %s (%v)", cmd.Name, label, vf.HexS(b), vf.HexS(b3), e3)
+			})
+		}
+	}
+	for _, full := range []bool{false, true} {
+		bound := 2
+		if full {
+			bound = 1
+		}
+		if _, err := smbgen.Enumerate(cmd, w.lat, full, bound, c.DeadlineExceeded, eval); err != nil {
+			smbgen.Fatalf(c, "explore %s (library offset convention): %v", cmd.Name, err)
+		}
+	}
 }
 
 // assignAfterDecode: a structure that came out of Unmarshal is a structure like any other - assigning one
@@ -427,6 +537,9 @@ func (w *worker) eval(a *refsmb.Assign, r *explore.Run) {
 		optional := f.Rel != nil && f.Rel.Kind == refsmb.ROptional
 		if optional && !a.Full {
 			changed = false // zero -> non-zero legitimately adds the field to the parameter block
+		}
+		if optional && a.Full && smbgen.Field(want, f).IsZero() {
+			changed = false // ... and non-zero -> zero legitimately drops it
 		}
 		if base := w.baseLib[idx(a.Full)]; base != nil && changed && f.Fixed() && f.Width > 0 && (f.Rel == nil || optional || f.Rel.Kind == RelOffset || f.Rel.Kind == RelAtLeast) {
 			w.locality(a, f, base, b, ref)
